@@ -874,7 +874,7 @@ class Translator:
         out.append('void __vf_unreachable(void);')
         out.append('void __vf_access(const void*, int);\n#define __VF_ACCESS(p, w) __vf_access((const void*)(p), (w))')
         out.append('void __vf_register_alloc(const void*);')
-        out.append('#ifdef __CPROVER__\n#define __VF_ASSERT(c, id, msg) __CPROVER_assert((c), msg)\n#define __VF_CHECK(c, id, msg) __CPROVER_assert((c), msg)\n#else\n#define __VF_ASSERT(c, id, msg) __vf_assert((c), (id))\n#define __VF_CHECK(c, id, msg) __vf_check((c), (id))\n#endif')
+        out.append('#ifdef __CPROVER__\n#define __VF_ASSERT(c, id, msg) __CPROVER_assert((c), msg)\n#ifdef VF_CHECK_ASSUME\n#define __VF_CHECK(c, id, msg) __CPROVER_assume(c)\n#else\n#define __VF_CHECK(c, id, msg) __CPROVER_assert((c), msg)\n#endif\n#else\n#define __VF_ASSERT(c, id, msg) __vf_assert((c), (id))\n#define __VF_CHECK(c, id, msg) __vf_check((c), (id))\n#endif')
         out.append('#include <stdlib.h>')
         out.append('#ifdef __CPROVER__\n#define __VF_ALLOC_POST(p) __CPROVER_assume((p) != 0)\n#else\n#define __VF_ALLOC_POST(p) ((void)0)\n#endif')
         # struct forward decls
